@@ -7,7 +7,9 @@ P = {
     "claimed": True,
     "coq_targets": ["Properties/C02.vo", "Run/Eval_C02.vo"],
     "theorems_module": "Properties.C02",
-    "theorems": ["C02_find_is_most_specific", "C02_repaired_find_is_most_specific", "C02_F1_refuted", "C02_nonvacuous",
+    "theorems": ["C02_find_is_most_specific", "C02_repaired_find_is_most_specific",
+                 "C02_tree_refines_machine", "C02_tree_find_is_most_specific", "C02_tree_repaired_find_is_most_specific",
+                 "C02_F1_refuted", "C02_nonvacuous",
                  "C02_order_independent", "C02_answer_is_first_acceptable", "C02_most_specific_wins",
                  "C02_no_backtracking_stops", "C02_backtracking_continues", "C02_match_decides_matches",
                  "C02_parsed_expressions_wellformed", "C02_wildcards_nonempty", "C02_escapes_are_literals",
@@ -35,8 +37,10 @@ P = {
     "anchors": ["internal/x/radixtree/tree.go", "internal/x/radixtree/options.go", "internal/rules/repository_impl.go",
                 "internal/rules/rule_impl.go", "internal/rules/route_matcher.go"],
     "trusted": [
-        "stage 1 only: the model of the index is the pattern-map machine of Radix/Machine.v (findNode without node compression); "
-        "prefix splitting, static-child priorities and node merging of tree.go are covered by the correspondence runs, not by a theorem",
+        "stage 2 is proved for lookups only: findNode of the compressed tree (Radix/Tree.v) on any tree satisfying the shape invariant wfb "
+        "is the machine's search on abs(tree) (theorem C02_tree_refines_machine); that addNode/splitCommonPrefix preserve wfb and that "
+        "abs of the tree built equals the machine's index is CHECKED on every generated case (tree_ok in Run/Eval_C02.v), not proved; "
+        "static-child priorities (order only) and Delete/node merging are not modelled here",
         "conditions are data: matchers that do not look at key names/captures (scheme, method, host); path_params conditions and the "
         "captures handed out are C03's observables and are not compared here",
         "every Add carries WithBacktracking (as repository.addRulesTo does); an expression's flag is that of its last accepted Add",
@@ -50,8 +54,9 @@ P = {
                   "default rule / no rule at repository level. The model is tied to radixtree.Tree and rules.repository by running both "
                   "on ~1000 generated indexes / ~16000 lookups per quick run (25000 / 400000 thorough) and comparing every Add result and "
                   "every returned value / rule id, against the machine (correspondence) and against the specification (property).",
-    "level_note": "Stage 1 of DESIGN 6/C02: the theorems are about the uncompressed pattern-map machine; node compression (prefix "
-                  "split, priorities, merge on delete) is tied to it by differential runs only. Trusted: Coq kernel/vm_compute, the Go "
+    "level_note": "Stage 1 (pattern-map machine = specification, load invariants, order independence) is proved for all inputs; stage 2 is "
+                  "proved for findNode (compressed tree refines the machine on every well-formed tree) while Add's preservation of the tree "
+                  "invariant / abstraction is validated per generated case, and Delete is not modelled. Trusted: Coq kernel/vm_compute, the Go "
                   "drivers and generators (harness/c02), rendering into Gallina. Conditions are data (capture-independent matchers); "
                   "captures/keys are C03's. Open finding C02-F1 (free-wildcard failure consults the parent node's flag) is guarded "
                   "(guard_F1, an over-approximation by input) and observed on every run through the corpus.",
